@@ -137,12 +137,20 @@ impl Lexer {
 
     /// The last character of a literal that breaks off at `at` (a line break
     /// or the end of the file): the character in front of it, on the same line.
-    fn literal_end(at: Position) -> Position {
-        if at.zero_idx_column() > 0 && at.raw_index() > 0 {
+    fn literal_end(&self, at: Position) -> Position {
+        // The carriage return of a CR LF pair is part of the line ending too
+        let mut back = 1;
+        if at.raw_index() >= 2
+            && self.source.get(at.raw_index()) == Some(&'\n')
+            && self.source.get(at.raw_index() - 1) == Some(&'\r')
+        {
+            back = 2;
+        }
+        if at.zero_idx_column() >= back && at.raw_index() >= back {
             Position::new(
                 at.zero_idx_line(),
-                at.zero_idx_column() - 1,
-                at.raw_index() - 1,
+                at.zero_idx_column() - back,
+                at.raw_index() - back,
             )
         } else {
             at
@@ -387,7 +395,14 @@ impl Iterator for Lexer {
 
                 while let Some(current) = self.current() {
                     comment_str.push(current);
-                    if self.peek(1) == Some('\n') || self.peek(1).is_none() {
+                    // The comment ends in front of the line ending: LF, the end
+                    // of the file, or the CR of a CR LF pair
+                    let ends_here = match self.peek(1) {
+                        None | Some('\n') => true,
+                        Some('\r') => self.peek(2) == Some('\n'),
+                        Some(_) => false,
+                    };
+                    if ends_here {
                         break;
                     }
                     self.consume_char();
@@ -429,7 +444,7 @@ impl Iterator for Lexer {
                                     start,
                                     match e.kind {
                                         StringLexErrorType::InvalidEscapeSequence => e.pos,
-                                        _ => Self::literal_end(e.pos),
+                                        _ => self.literal_end(e.pos),
                                     },
                                 ),
                                 self.source_id,
@@ -474,7 +489,7 @@ impl Iterator for Lexer {
                                 c.to_string(),
                                 StringLexErrorType::Newline,
                                 start,
-                                Self::literal_end(self.get_pos()),
+                                self.literal_end(self.get_pos()),
                             ))
                         }
                         // Otherwise, return the character as is
@@ -499,7 +514,7 @@ impl Iterator for Lexer {
 
                         // The character is unclosed
                         let end = match eq {
-                            '\n' => Self::literal_end(self.get_pos()),
+                            '\n' => self.literal_end(self.get_pos()),
                             _ => self.get_pos(),
                         };
                         return Some(self.invalid_string(
@@ -511,7 +526,7 @@ impl Iterator for Lexer {
                     }
                 }
 
-                let end = Self::literal_end(self.get_pos());
+                let end = self.literal_end(self.get_pos());
                 return Some(self.invalid_string(
                     String::new(), // Empty string, since we are at EOF
                     StringLexErrorType::Unclosed,
